@@ -58,6 +58,25 @@ func (w *World) step(host string, pre Cookie, cookieVal string, q Req, a Ans, r 
 		body = "k=v"
 		hdr.Set("Content-Type", "application/x-www-form-urlencoded")
 	}
+	// headers a client is free to send: the host the session is bound to must be compared with the Host the
+	// request was routed by, whatever an X-Forwarded-Host / Forwarded header claims
+	if r.Intn(2) == 0 {
+		claim := pick(r, hostOther, host, "evil.test")
+		if cookieVal != "" {
+			if s, err := w.P.Open(cookieVal); err == nil && s.AuthorizedUpstream != "" && r.Intn(4) != 0 {
+				claim = s.AuthorizedUpstream
+			}
+		}
+		switch r.Intn(3) {
+		case 0:
+			hdr.Set("X-Forwarded-Host", claim)
+		case 1:
+			hdr.Set("X-Forwarded-Host", claim+", "+host)
+		default:
+			hdr.Set("Forwarded", "host="+claim)
+			hdr.Set("X-Forwarded-Host", claim)
+		}
+	}
 	req := world.NewReq(method, host, target, hdr, cookies, body)
 	resp := world.Do(w.P.Handler, req)
 	now := time.Now()
